@@ -717,6 +717,16 @@ def history_ops(kind, pv, S, r, length):
     for name in openit:
         ops.append(["inext", name, 100000])
         ops.append(["iclose", name])
+    # look-alike queries one after the other (same length, long common prefix): an answer must not be the
+    # previous one's
+    if kind in SUBSTR_KINDS and not (kind == "FMINDEX" and int(pv.get("bwt", 4)) == 0):
+        for x in gen.substrings_of(r, S, 2)[-8:]:
+            if len(x) > 33:
+                ops += [["sub", hx(x)], ["xsub", hx(x)]]
+    if kind in PREFIX_KINDS:
+        for x in gen.fence_patterns(S, 4)[:8]:
+            if len(x) > 33:
+                ops += [["pre", hx(x)], ["xpre", hx(x)]]
     return ops
 
 
